@@ -272,3 +272,381 @@ def _context_helpers(repo):
     lean = ("def contextHelpers : List (String × String) := [\n  "
             + ",\n  ".join(f"({lean_str(a)}, {lean_str(b)})" for a, b in rows) + "]")
     return rows, lean
+
+
+# ------------------------------------------------------------------------------------------------
+# the re-entry graph of the whole crate: every function from which the interpreter loop can be
+# reached by static calls, with the depth bookkeeping it performs (C11_CHARGES), and the
+# frame-size relevant declarations of `eval_impl` (C11_FRAME)
+
+def _skip_balanced(src, i, open_ch, close_ch):
+    depth = 0
+    while i < len(src):
+        if src[i] == open_ch:
+            depth += 1
+        elif src[i] == close_ch:
+            depth -= 1
+            if depth == 0:
+                return i + 1
+        i += 1
+    return len(src)
+
+
+def _strip_hooks(src):
+    """remove comments and every item / statement / block under `#[cfg(feature = "verif_hooks")]`
+    (brace aware: hook functions contain closures)"""
+    src = re.sub(r"//[^\n]*", "", src)
+    out, i = [], 0
+    pat = re.compile(r"#\[cfg\(feature = \"verif_hooks\"\)\]\s*")
+    while True:
+        m = pat.search(src, i)
+        if not m:
+            out.append(src[i:])
+            break
+        out.append(src[i:m.start()])
+        j = m.end()
+        # further attributes
+        while src.startswith("#[", j):
+            j = _skip_balanced(src, j + 1, "[", "]")
+            while j < len(src) and src[j].isspace():
+                j += 1
+        if src.startswith("{", j):
+            j = _skip_balanced(src, j, "{", "}")
+        else:
+            # up to the first `;` or the end of the first brace block at nesting depth 0
+            depth = 0
+            while j < len(src):
+                c = src[j]
+                if c in "([{":
+                    depth += 1
+                elif c in ")]}":
+                    depth -= 1
+                    if depth == 0 and c == "}":
+                        j += 1
+                        break
+                    if depth < 0:
+                        break      # a hook expression that is the tail of a block
+                elif c == ";" and depth == 0:
+                    j += 1
+                    break
+                elif c == "," and depth == 0:
+                    j += 1       # a struct field / argument under the attribute
+                    break
+                j += 1
+        i = j
+    return "".join(out)
+
+
+def _qualified_functions(src):
+    """(owner, name, attrs, body) of every `fn` with a body; owner = the type of the enclosing
+    `impl` block (`impl<..> Trait for Type<..>` -> `Type`), '' for free functions"""
+    # positions of impl blocks
+    impls = []
+    for m in re.finditer(r"\bimpl\b(?:\s*<[^{;]*?>)?\s+([^{;]+?)\s*\{", src):
+        head = m.group(1)
+        ty = head.split(" for ")[-1].strip()
+        ty = re.sub(r"<.*", "", ty).strip()
+        ty = ty.split("::")[-1]
+        start = m.end() - 1
+        depth, j = 0, start
+        while j < len(src):
+            if src[j] == "{":
+                depth += 1
+            elif src[j] == "}":
+                depth -= 1
+                if depth == 0:
+                    break
+            j += 1
+        impls.append((start, j, ty))
+    out = []
+    for m in re.finditer(r"\bfn\s+(\w+)\s*", src):
+        p = m.end()
+        if src.startswith("<", p):
+            # generic parameters, nested (`<V: Into<Value>>`)
+            d = 0
+            while p < len(src):
+                if src[p] == "<":
+                    d += 1
+                elif src[p] == ">" and src[p - 1] != "-":
+                    d -= 1
+                    if d == 0:
+                        p += 1
+                        break
+                p += 1
+            while p < len(src) and src[p].isspace():
+                p += 1
+        if not src.startswith("(", p):
+            continue
+        close = _balanced(src, p)
+        k = src.find("{", close)
+        semi = src.find(";", close)
+        if k < 0 or (0 <= semi < k):
+            continue
+        j = _skip_balanced(src, k, "{", "}") - 1
+        owner = ""
+        for a, b, ty in impls:
+            if a < m.start() < b:
+                owner = ty      # innermost wins: impls are not nested, the last match is fine
+        # attributes directly above the fn (back to the previous `}` or `;` or `{`)
+        pre = src[max(0, m.start() - 400):m.start()]
+        cut = max(pre.rfind("}"), pre.rfind(";"), pre.rfind("{"))
+        attrs = re.findall(r"#\[(inline[^\]]*)\]", pre[cut + 1:])
+        out.append((owner, m.group(1), attrs, src[k + 1:j], m.start()))
+    return out
+
+
+# names that are too generic to follow through a method call without a type (`x.call(`, `x.eval(`)
+_GENERIC = {"call", "eval", "new", "render", "get", "next", "fmt", "from", "clone", "drop", "call_method"}
+
+
+def _crate_functions(repo):
+    import glob, os
+    base = os.path.join(repo, "minijinja", "src")
+    fns = []
+    for path in sorted(glob.glob(os.path.join(base, "**", "*.rs"), recursive=True)):
+        rel = os.path.relpath(path, base)
+        if rel == "verif_hooks.rs":
+            continue
+        src = _strip_hooks(open(path, encoding="utf-8").read())
+        # doc tests and examples inside doc comments are gone with `_strip`; test modules are not
+        # part of the library
+        src = re.sub(r"#\[cfg\(test\)\]\s*mod \w+\s*\{.*\Z", "", src, flags=re.S)
+        for owner, name, attrs, body, pos in _qualified_functions(src):
+            fns.append({"file": rel, "owner": owner, "name": name, "attrs": attrs, "body": body})
+    return fns
+
+
+def _calls_in(body, targets, cur_owner=None):
+    """calls in `body` to one of `targets` = {(owner, name)}: `Self::n(`, `Type::n(`, `vm::n(`,
+    `crate::vm::n(`, `.n(` (method, not for generic names), `n(` (free function)"""
+    found = []
+    for m in re.finditer(r"(?:(\w+)::)?(\.)?\b(\w+)\s*(?:::<[^>()]*>)?\(", body):
+        qual, dot, name = m.group(1), m.group(2), m.group(3)
+        # `a::b::name(`: take the last path segment before the name
+        pre = body[max(0, m.start() - 1):m.start()]
+        if pre == ":" and not qual:
+            continue
+        for (o, n) in targets:
+            if n != name:
+                continue
+            if qual in ("Self",):
+                if cur_owner is None or o == cur_owner:
+                    found.append((m.start(), (o, n), "Self"))
+            elif qual in ("vm",) and o == "":
+                found.append((m.start(), (o, n), "vm"))
+            elif qual and qual == o:
+                found.append((m.start(), (o, n), qual))
+            elif dot and name not in _GENERIC:
+                found.append((m.start(), (o, n), "."))
+            elif not qual and not dot and o == "" and name not in _GENERIC:
+                found.append((m.start(), (o, n), ""))
+    return found
+
+
+_CTX_MUT = None
+
+
+def _ctx_mutators(repo):
+    """the names of all `&mut self` methods of `Context` (whatever is added later is included)"""
+    src = _strip_hooks(read(repo, CTX))
+    names = []
+    for owner, name, attrs, body, pos in _qualified_functions(src):
+        if owner != "Context":
+            continue
+        head = src[pos:pos + 200]
+        if re.search(r"fn\s+%s\s*(?:<[^>]*>)?\s*\(\s*&mut self" % name, head):
+            names.append(name)
+    return sorted(set(names))
+
+
+# mutators that do not touch the depth (they change what a frame holds, not how many there are)
+_DEPTH_NEUTRAL_MUT = {"store", "reset_closure", "take_closure", "current_locals_mut", "next_loop_item"}
+
+
+def _ctx_ops(body, mutators):
+    ops = []
+    for m in re.finditer(r"\b(?:ctx|macro_ctx|old_ctx)\s*\.\s*(\w+)\(", body):
+        if m.group(1) in mutators and m.group(1) not in _DEPTH_NEUTRAL_MUT:
+            ops.append(m.group(1))
+    if re.search(r"mem::replace\(\s*&mut\s+(?:self|state)\.ctx", body):
+        ops.append("replace-ctx")
+    if re.search(r"\b(?:self|state)\.ctx\s*=[^=]", body):
+        ops.append("assign-ctx")
+    if re.search(r"mem::(?:take|swap)\(\s*&mut\s+(?:self|state)\.ctx", body):
+        ops.append("take-ctx")
+    return ops
+
+
+@item("C11_CHARGES")
+def _charges(repo):
+    """every function of the crate from which `eval_impl` is reachable by static calls (fixpoint
+    from `Executor::eval_impl`; method calls by name, except for generic names, which need a type):
+    (file, owner, fn, reached callees, depth operations of its body).  The dynamic boundary
+    (`Object::call` implementations: only `Macro::call` re-enters) is listed with owner `Macro`."""
+    fns = _crate_functions(repo)
+    mut = _ctx_mutators(repo)
+    reach = {("Executor", "eval_impl")}
+    rows = {}
+    changed = True
+    while changed:
+        changed = False
+        for f in fns:
+            key = (f["file"], f["owner"], f["name"])
+            calls = _calls_in(f["body"], reach, f["owner"])
+            # a function does not "reach" through a call to itself only
+            callees = []
+            for pos, t, how in calls:
+                if t == (f["owner"], f["name"]) and f["name"] != "eval_impl":
+                    continue
+                callees.append(t)
+            if not callees:
+                continue
+            names = []
+            for o, n in callees:
+                q = f"{o}::{n}" if o else n
+                if q not in names:
+                    names.append(q)
+            row = (f["file"], f["owner"], f["name"], ",".join(names), ",".join(_ctx_ops(f["body"], mut)))
+            if rows.get(key) != row:
+                rows[key] = row
+                changed = True
+            if (f["owner"], f["name"]) not in reach:
+                reach.add((f["owner"], f["name"]))
+                changed = True
+    out = [rows[k] for k in sorted(rows)]
+    if not any(r[2] == "eval_macro" for r in out) or not any(r[2] == "perform_include" for r in out):
+        raise KeyError("re-entry graph: eval_macro / perform_include not reached")
+    # the cost each charged function adds to the caller's depth, from the source expressions
+    src = _strip_hooks(read(repo, VM))
+    vmfns = {name: body for name, body in _functions(src)}
+
+    def cval(name):
+        m = re.search(r"const\s+%s\s*:\s*usize\s*=\s*([0-9_]+)\s*;" % name, src)
+        if not m:
+            raise KeyError(f"const {name}")
+        return int(m.group(1).replace("_", ""))
+
+    def charge_of(fn):
+        body = vmfns[fn]
+        frames = len(re.findall(r"\.push_frame\(", body)) + len(re.findall(r"\.reset_with_frame\(", body))
+        add, inherits = 0, False
+        for m in re.finditer(r"\.incr_depth\(", body):
+            arg = _norm(body[m.end():_balanced(body, m.end() - 1) - 1])
+            mm = re.fullmatch(r"state\.ctx\.depth\(\) \+ ([A-Z_]+)", arg)
+            if mm:
+                inherits = True
+                add += cval(mm.group(1))
+            elif re.fullmatch(r"[A-Z_]+", arg):
+                add += cval(arg)
+            else:
+                raise KeyError(f"{fn}: incr_depth argument not understood: {arg}")
+        return frames + add, inherits
+    costs = []
+    for fn in ("eval_macro", "perform_include", "perform_super", "call_block"):
+        if fn not in vmfns:
+            raise KeyError(f"fn {fn}")
+        c, inh = charge_of(fn)
+        costs.append((fn, c, inh))
+    # the dynamic boundary: every function that hands the `State` to a callback (filter, test,
+    # function, object or method call); what the callback does with it is outside this crate, the
+    # function around the call must leave the depth alone
+    cb = []
+    for f in fns:
+        n = len(re.findall(r"\.call(?:_method)?\(\s*(?:self|state|_state)\b", f["body"]))
+        if n:
+            cb.append((f["file"], f["owner"], f["name"], n, ",".join(_ctx_ops(f["body"], mut))))
+    cb.sort()
+    lean_cb = ("def callbackSites : List (String × String × String × Nat × String) := [\n  "
+               + ",\n  ".join("(%s, %s, %s, %d, %s)" % (lean_str(a), lean_str(b), lean_str(c), d, lean_str(e)) for a, b, c, d, e in cb) + "]\n")
+    # every function of the crate that adjusts the depth of a context it does not own the
+    # implementation of (receiver `…ctx.`), with the operations in source order
+    ops = []
+    for f in fns:
+        o = _ctx_ops(f["body"], mut)
+        if o:
+            ops.append((f["file"], f["owner"], f["name"], ",".join(o)))
+    ops.sort()
+    lean_cb += ("def depthOpSites : List (String × String × String × String) := [\n  "
+                + ",\n  ".join("(%s, %s, %s, %s)" % tuple(lean_str(x) for x in r) for r in ops) + "]\n")
+    lean = (lean_cb + "def reentryGraph : List (String × String × String × List String × String) := [\n  "
+            + ",\n  ".join("(%s, %s, %s, [%s], %s)" % (lean_str(r[0]), lean_str(r[1]), lean_str(r[2]),
+                                                      ", ".join(lean_str(x) for x in r[3].split(",")), lean_str(r[4])) for r in out) + "]\n"
+            + "def reentryChargeCosts : List (String × Nat × Bool) := ["
+            + ", ".join(f"({lean_str(a)}, {b}, {'true' if c else 'false'})" for a, b, c in costs) + "]\n"
+            + "def contextMutators : List String := [" + ", ".join(lean_str(x) for x in mut) + "]")
+    return {"graph": out, "costs": costs, "mutators": mut, "callbacks": cb, "depth_ops": ops}, lean
+
+
+@item("C11_FRAME")
+def _frame(repo):
+    """what sits in `eval_impl`'s native frame: its parameters, the locals declared before the
+    interpreter loop, the fixed-size arrays among them with their lengths (resolved constants),
+    the macros that expand into it, and the inline attributes of the functions of vm/mod.rs"""
+    src = _strip_hooks(read(repo, VM))
+    m = re.search(r"fn eval_impl\s*\(", src)
+    if not m:
+        raise KeyError("fn eval_impl")
+    close = _balanced(src, m.end() - 1)
+    params = [_norm(p) for p in src[m.end():close - 1].split(",") if _norm(p)]
+    body = None
+    for name, b in _functions(src):
+        if name == "eval_impl":
+            body = b
+    k = re.search(r"\n\s*loop\s*\{", body)
+    if not k:
+        raise KeyError("eval_impl: interpreter loop")
+    head = body[:k.start()]
+    # drop macro_rules definitions (their bodies are not declarations of the frame)
+    head_nom = re.sub(r"macro_rules!\s*\w+\s*\{.*?\n        \}\n", "", head, flags=re.S)
+    locals_ = re.findall(r"\blet\s+(?:mut\s+)?(\(?[\w, ]+\)?)\s*(?::[^=;]+)?=", head_nom)
+    locals_ = [_norm(x) for x in locals_]
+    arrays = []
+    inst = read(repo, "minijinja/src/compiler/instructions.rs")
+    for a in re.finditer(r"\blet\s+(?:mut\s+)?(\w+)\s*(?::\s*[^=;]+)?=\s*\[\s*([^;\]]+?)\s*;\s*(\w+)\s*\]\s*;", head_nom):
+        name, init, ln = a.group(1), _norm(a.group(2)), a.group(3)
+        if ln.isdigit():
+            n = int(ln)
+        else:
+            mm = re.search(r"const\s+%s\s*:\s*usize\s*=\s*([^;]+);" % ln, inst) or re.search(r"const\s+%s\s*:\s*usize\s*=\s*([^;]+);" % ln, src)
+            if not mm:
+                raise KeyError(f"array length constant {ln}")
+            v = mm.group(1).strip().replace("_", "")
+            if v.isdigit():
+                n = int(v)
+            elif re.fullmatch(r"LocalId::MAX as usize", v):
+                n = 255
+            else:
+                raise KeyError(f"array length constant {ln} = {v} not understood")
+        arrays.append((name, init, n))
+    # every element kind used so far is pointer sized (Option<&Value>, usize)
+    array_bytes = sum(n * 8 for _, _, n in arrays)
+    attrs = []
+    for owner, name, at, b, pos in _qualified_functions(src):
+        for x in at:
+            attrs.append((name, x))
+    lean = ("def evalImplParams : List String := [" + ", ".join(lean_str(p) for p in params) + "]\n"
+            + "def evalImplLocals : List String := [" + ", ".join(lean_str(p) for p in locals_) + "]\n"
+            + "def evalImplArrays : List (String × String × Nat) := ["
+            + ", ".join(f"({lean_str(a)}, {lean_str(b)}, {c})" for a, b, c in arrays) + "]\n"
+            + f"def evalImplArrayBytes : Nat := {array_bytes}\n"
+            + "def vmInlineAttrs : List (String × String) := ["
+            + ", ".join(f"({lean_str(a)}, {lean_str(b)})" for a, b in attrs) + "]")
+    return {"params": params, "locals": locals_, "arrays": arrays, "array_bytes": array_bytes, "inline": attrs}, lean
+
+
+@item("C11_ENV_LIMITS")
+def _env_limits(repo):
+    """the recursion limit every constructor of `Environment` starts with"""
+    src = _strip_hooks(read(repo, ENVRS))
+    rows = []
+    for owner, name, at, body, pos in _qualified_functions(src):
+        if owner != "Environment":
+            continue
+        m = re.search(r"\brecursion_limit:\s*([^,}]+),", body)
+        if m:
+            rows.append((name, _norm(m.group(1))))
+    if not rows:
+        raise KeyError("Environment constructors")
+    lean = ("def envLimitDefaults : List (String × String) := ["
+            + ", ".join(f"({lean_str(a)}, {lean_str(b)})" for a, b in rows) + "]")
+    return rows, lean
